@@ -216,6 +216,9 @@ def base_effect(run, P):
                 return [('', ('bytes', 'T[r]', rg[3][1] - rg[3][0], ('T', rg[3][0], rg[3][1])), [])]
             if rg[1].endswith('ops::RangeTo'):
                 return [('', ('prefix', 'T', rg[3][0]), [])]
+            if rg[1].endswith('ops::RangeFrom'):
+                n_ = sym('len(T)')
+                return [('', ('bytes', 'T[r..]', n_ - rg[3][0], ('T', rg[3][0], n_)), [])]
             return None
         if base == 'clone' and isinstance(a0, tuple) and a0[0] == 'adt' and a0[1].endswith('ops::Range'):
             return [('', a0, [])]
@@ -262,7 +265,10 @@ def base_effect(run, P):
             same = d == Aff() or (entails(q.facts, d) and entails(q.facts, -d))
             ok = same and pt[0] == 'T' and pt[1] == rs and pt[2] == re_
         if not ok:
-            run.violation('base|effect', f'{P.where(b)} {fn} does not return bytes[.. path start + len(directory(path))] of its own text on every path (returns {str(r)[:80]})')
+            why = ''
+            if state.get('path') is not None and 'r' in state and not (state['path'][1] == state['r'][0] and state['path'][2] == state['r'][1]):
+                why = f'; directory() is applied to bytes[{state["path"][1]!r}..{state["path"][2]!r}], which is not the path range [{state["r"][0]!r}..{state["r"][1]!r}) found by find_path (a "/" of the query or fragment would count)'
+            run.violation('base|effect', f'{P.where(b)} {fn} does not return bytes[.. path start + len(directory(path))] of its own text on every path (returns {str(r)[:80]}){why}')
 
 
 def suffix_gate(run, P):
